@@ -401,7 +401,11 @@ namespace awkward {
       }
 
       Index64 offsets = compact_offsets64(start_at_zero);
-      ContentPtr content = content_.get()->getitem_range_nowrap(offsets0, content_.get()->length());
+      // offsets[0] can lie outside the content when every list is empty
+      // (only non-empty lists are required to be within bounds)
+      int64_t lencontent = content_.get()->length();
+      int64_t start = offsets0 < 0 ? 0 : (offsets0 > lencontent ? lencontent : offsets0);
+      ContentPtr content = content_.get()->getitem_range_nowrap(start, lencontent);
       return std::make_shared<ListOffsetArrayOf<int64_t>>(identities_,
                                                           parameters_,
                                                           offsets,
